@@ -13,6 +13,7 @@ import JanetModel.Lib.Kmp
 import JanetModel.Lib.Sort
 import JanetModel.Lib.Range
 import JanetModel.Lib.Format
+import JanetModel.Lib.StrC
 open Driver JanetModel.Lib
 
 inductive V where
@@ -160,6 +161,23 @@ def setArg0 (args : List V) (v : V) : List V :=
 def resolveRefs (args : List V) : List V :=
   args.map (fun v => match v with | .ref k => args.getD k .nil | v => v)
 
+/-- the optional `start` argument as the int32 that `janet_getinteger` decodes (outer `none`: not an int32) -/
+def optStart (v : Option V) : Option (Option Int) :=
+  match v with
+  | none => some none
+  | some x => (intOf x).map some
+
+def natOfStart : Option Int → Option Nat
+  | none => some 0
+  | some x => if x < 0 then none else some x.toNat
+
+/-- run the mirror of the C code next to the reference definition: the normal output `k` is produced only when the two
+    agree (`R.panic` ↔ `none`); otherwise the line carries a token that no implementation output can match -/
+def withMirror {α : Type} [BEq α] (m : R α) (spec : Option α) (args : List V) (k : Out) : Out :=
+  match m with
+  | .ub => .ok (.other "MIRROR-UB") args
+  | _ => if m == R.ofOption spec then k else .ok (.other "MIRROR-MISMATCH") args
+
 def sliceFn (kind : String) (args : List V) : Out :=
   -- kind: which container is returned
   match args with
@@ -180,7 +198,8 @@ def sliceFn (kind : String) (args : List V) : Out :=
       match optInt s, optInt e with
       | some s, some e =>
         match c with
-        | .inl b => (match slice b s e with
+        | .inl b => withMirror (StrC.slice b s e) (slice b s e) args
+           (match slice b s e with
             | none => .err args
             | some r => .ok (.str (match kind with | "buffer" => 1 | "symbol" => 2 | "keyword" => 3 | _ => 0) r) args)
         | .inr l => (match slice l s e with
@@ -239,20 +258,24 @@ def call (f : String) (args : List V) : Out :=
   -- ---------------------------------------------------------------- search family
   | "string/find", pat :: text :: rest =>
     if rest.length > 1 then .err args else
-    (match bytesOf pat, bytesOf text, natStart rest.head? with
-     | some p, some t, some st =>
-       (match find p t st with
+    (match bytesOf pat, bytesOf text, optStart rest.head? with
+     | some p, some t, some sti =>
+       let spec : Option (Option Nat) := (natOfStart sti).bind (fun st => find p t st)
+       withMirror (StrC.find p t sti) spec args
+       (match spec with
         | none => .err args
         | some none => .ok .nil args
-        | some (some r) => if Kmp.find p t st == some r then .ok (.int r) args else .ok (.other "KMP-MISMATCH") args)
+        | some (some r) => .ok (.int r) args)
      | _, _, _ => .err args)
   | "string/find-all", pat :: text :: rest =>
     if rest.length > 1 then .err args else
-    (match bytesOf pat, bytesOf text, natStart rest.head? with
-     | some p, some t, some st =>
-       if p == [] then .err args else
-       let r := findAll p t st
-       if Kmp.findAll p t st == r then .ok (.seq 1 (r.map (fun (i : Nat) => V.int i))) args else .ok (.other "KMP-MISMATCH") args
+    (match bytesOf pat, bytesOf text, optStart rest.head? with
+     | some p, some t, some sti =>
+       let spec : Option (List Nat) := (natOfStart sti).bind (fun st => if p == [] then none else some (findAll p t st))
+       withMirror (StrC.findAll p t sti) spec args
+       (match spec with
+        | none => .err args
+        | some r => .ok (.seq 1 (r.map (fun (i : Nat) => V.int i))) args)
      | _, _, _ => .err args)
   | "string/replace", pat :: subst :: text :: rest =>
     if (bytesOf subst).isNone then .skip else
@@ -272,17 +295,21 @@ def call (f : String) (args : List V) : Out :=
      | _, _, _, _ => .err args)
   | "string/split", pat :: text :: rest =>
     if rest.length > 2 then .err args else
-    (match bytesOf pat, bytesOf text, natStart rest.head?, (match rest with | [_, l] => intOf l | _ => some (-1)) with
-     | some p, some t, some st, some lim =>
-       if lim == int32Min then .skip else
-       (match split p t st lim with
+    (match bytesOf pat, bytesOf text, optStart rest.head?, (match rest with | [_, l] => (intOf l).map some | _ => some none) with
+     | some p, some t, some sti, some lim =>
+       let spec : Option (List Bytes) := (natOfStart sti).bind (fun st => split p t st (lim.getD (-1)))
+       withMirror (StrC.split p t sti lim) spec args
+       (match spec with
         | none => .err args
-        | some r => if Kmp.split p t st lim == r then .ok (.seq 1 (r.map (V.str 0))) args else .ok (.other "KMP-MISMATCH") args)
+        | some r => .ok (.seq 1 (r.map (V.str 0))) args)
      | _, _, _, _ => .err args)
   | "string/join", parts :: rest =>
     if rest.length > 1 then .err args else
     (match indexedOf parts, (match rest with | [s] => bytesOf s | _ => some []) with
-     | some ps, some sep => (match ps.mapM bytesOf with | some bs => .ok (.str 0 (join bs sep)) args | none => .err args)
+     | some ps, some sep =>
+       (match ps.mapM bytesOf with
+        | some bs => withMirror (StrC.join bs sep) (some (join bs sep)) args (.ok (.str 0 (join bs sep)) args)
+        | none => .err args)
      | _, _ => .err args)
   -- ---------------------------------------------------------------- printf-style subset (Lib/Format.lean)
   | "string/format", (.str 0 fmt) :: xs =>
@@ -310,24 +337,45 @@ def call (f : String) (args : List V) : Out :=
     if rest.length > 1 then .err args else
     (match bytesOf s, (match rest with | [x] => bytesOf x | _ => some defaultTrimSet) with
      | some b, some set =>
-       .ok (.str 0 (if f == "string/trim" then trim b set else if f == "string/triml" then triml b set else trimr b set)) args
+       let r := if f == "string/trim" then trim b set else if f == "string/triml" then triml b set else trimr b set
+       let m := if f == "string/trim" then StrC.trim b set else if f == "string/triml" then StrC.triml b set else StrC.trimr b set
+       withMirror m (some r) args (.ok (.str 0 r) args)
      | _, _ => .err args)
   | "string/repeat", [s, n] =>
     (match bytesOf s, intOf n with
-     | some b, some k => (match repeatBytes b k with | some r => .ok (.str 0 r) args | none => .err args)
+     | some b, some k =>
+       -- (the mirror materialises the result; the reference definition is compared for results up to 1 MB)
+       let res := repeatBytes b k
+       let out := (match res with | some r => .ok (.str 0 r) args | none => .err args)
+       if k * (b.length : Int) ≤ 1000000 ∨ k * (b.length : Int) > int32Max then withMirror (StrC.repeatStr b k) res args out else out
      | _, _ => .err args)
-  | "string/reverse", [s] => (match bytesOf s with | some b => .ok (.str 0 b.reverse) args | none => .err args)
-  | "string/ascii-upper", [s] => (match bytesOf s with | some b => .ok (.str 0 (asciiUpper b)) args | none => .err args)
-  | "string/ascii-lower", [s] => (match bytesOf s with | some b => .ok (.str 0 (asciiLower b)) args | none => .err args)
+  | "string/reverse", [s] =>
+    (match bytesOf s with | some b => withMirror (StrC.reverse b) (some b.reverse) args (.ok (.str 0 b.reverse) args) | none => .err args)
+  | "string/ascii-upper", [s] =>
+    (match bytesOf s with | some b => withMirror (StrC.asciiUpper b) (some (asciiUpper b)) args (.ok (.str 0 (asciiUpper b)) args) | none => .err args)
+  | "string/ascii-lower", [s] =>
+    (match bytesOf s with | some b => withMirror (StrC.asciiLower b) (some (asciiLower b)) args (.ok (.str 0 (asciiLower b)) args) | none => .err args)
   | "string/has-prefix?", [p, s] =>
-    (match bytesOf p, bytesOf s with | some a, some b => .ok (ofBool (hasPrefix a b)) args | _, _ => .err args)
+    (match bytesOf p, bytesOf s with
+     | some a, some b => withMirror (StrC.hasPrefix a b) (some (hasPrefix a b)) args (.ok (ofBool (hasPrefix a b)) args)
+     | _, _ => .err args)
   | "string/has-suffix?", [p, s] =>
-    (match bytesOf p, bytesOf s with | some a, some b => .ok (ofBool (hasSuffix a b)) args | _, _ => .err args)
+    (match bytesOf p, bytesOf s with
+     | some a, some b => withMirror (StrC.hasSuffix a b) (some (hasSuffix a b)) args (.ok (ofBool (hasSuffix a b)) args)
+     | _, _ => .err args)
   | "string/check-set", [p, s] =>
-    (match bytesOf p, bytesOf s with | some a, some b => .ok (ofBool (checkSet a b)) args | _, _ => .err args)
-  | "string/bytes", [s] => (match bytesOf s with | some b => .ok (.seq 0 (b.map (fun (x : Nat) => V.int x))) args | none => .err args)
+    (match bytesOf p, bytesOf s with
+     | some a, some b => withMirror (StrC.checkSet a b) (some (checkSet a b)) args (.ok (ofBool (checkSet a b)) args)
+     | _, _ => .err args)
+  | "string/bytes", [s] =>
+    (match bytesOf s with
+     | some b => withMirror (StrC.bytes b) (some (b.map (fun (x : Nat) => (x : Int)))) args (.ok (.seq 0 (b.map (fun (x : Nat) => V.int x))) args)
+     | none => .err args)
   | "string/from-bytes", xs =>
-    (match xs.mapM intOf with | some l => .ok (.str 0 (l.map toByte)) args | none => .err args)
+    (match ints xs with
+     | some raw => withMirror (StrC.fromBytes raw) ((raw.mapM getInt32).map (·.map toByte)) args
+         (match xs.mapM intOf with | some l => .ok (.str 0 (l.map toByte)) args | none => .err args)
+     | none => .err args)
   | "buffer/from-bytes", xs =>
     (match xs.mapM intOf with | some l => .ok (.str 1 (l.map toByte)) args | none => .err args)
   -- ---------------------------------------------------------------- buffers
